@@ -295,6 +295,8 @@ func TestVerifDriver(t *testing.T) {
 			fmt.Fprintln(w, verifDecl(line[2:]))
 		case strings.HasPrefix(line, "V "):
 			fmt.Fprintln(w, verifVarPool(line[2:]))
+		case strings.HasPrefix(line, "G "):
+			fmt.Fprintln(w, verifTypeLine(line[2:]))
 		default:
 			fmt.Fprintln(w, "BAD")
 		}
